@@ -93,7 +93,7 @@ Ltac fin_marked :=
 Ltac fin_read := first [ reflexivity | eapply unmarked_after_get; eassumption ].
 
 Theorem marks_complete_xack now d parts r d' k :
-  h_xack now d parts = (r, d') -> bmem k (marks_streams d d' (bs "XACK") parts r) = false ->
+  h_xack now d parts = (r, d') -> bmem k (marks_streams now d d' (bs "XACK") parts r) = false ->
   get_entry d' k = get_entry d k.
 Proof.
   intros H Hn. split_group_marks Hn. unfold h_xack in H.
@@ -117,21 +117,21 @@ Ltac fin_has_group :=
   end.
 
 Theorem marks_complete_xclaim now d parts r d' k :
-  h_xclaim now d parts = (r, d') -> bmem k (marks_streams d d' (bs "XCLAIM") parts r) = false ->
+  h_xclaim now d parts = (r, d') -> bmem k (marks_streams now d d' (bs "XCLAIM") parts r) = false ->
   get_entry d' k = get_entry d k.
 Proof.
   intros H Hn. split_group_marks Hn. unfold h_xclaim in H.
   repeat st_step; try fin_read; try fin_marked; try fin_has_group.
 Qed.
 Theorem marks_complete_xpending now d parts r d' k :
-  h_xpending now d parts = (r, d') -> bmem k (marks_streams d d' (bs "XPENDING") parts r) = false ->
+  h_xpending now d parts = (r, d') -> bmem k (marks_streams now d d' (bs "XPENDING") parts r) = false ->
   get_entry d' k = get_entry d k.
 Proof.
   intros H Hn. split_group_marks Hn. unfold h_xpending in H.
   repeat st_step; try fin_read.
 Qed.
 Theorem marks_complete_xinfo now d parts r d' k :
-  h_xinfo now d parts = (r, d') -> bmem k (marks_streams d d' (bs "XINFO") parts r) = false ->
+  h_xinfo now d parts = (r, d') -> bmem k (marks_streams now d d' (bs "XINFO") parts r) = false ->
   get_entry d' k = get_entry d k.
 Proof.
   intros H Hn. split_group_marks Hn. unfold h_xinfo in H.
@@ -158,35 +158,35 @@ Ltac fin_mkstream :=
 Ltac fin_all := try fin_read; try fin_marked; try fin_has_group; try fin_absurd; try fin_mkstream.
 
 Lemma mc_destroy now d parts r d' k sub : nth_arg parts 1 = Some sub -> upper sub = bs "DESTROY" ->
-  h_xgroup_destroy now d parts = (r, d') -> bmem k (marks_streams d d' (bs "XGROUP") parts r) = false ->
+  h_xgroup_destroy now d parts = (r, d') -> bmem k (marks_streams now d d' (bs "XGROUP") parts r) = false ->
   get_entry d' k = get_entry d k.
 Proof.
   intros Hs Hu H Hn. sub_marks Hn Hs Hu. unfold h_xgroup_destroy in H.
   repeat st_step; fin_all.
 Qed.
 Lemma mc_createconsumer now d parts r d' k sub : nth_arg parts 1 = Some sub -> upper sub = bs "CREATECONSUMER" ->
-  h_xgroup_createconsumer now d parts = (r, d') -> bmem k (marks_streams d d' (bs "XGROUP") parts r) = false ->
+  h_xgroup_createconsumer now d parts = (r, d') -> bmem k (marks_streams now d d' (bs "XGROUP") parts r) = false ->
   get_entry d' k = get_entry d k.
 Proof.
   intros Hs Hu H Hn. sub_marks Hn Hs Hu. unfold h_xgroup_createconsumer in H.
   repeat st_step; fin_all.
 Qed.
 Lemma mc_delconsumer now d parts r d' k sub : nth_arg parts 1 = Some sub -> upper sub = bs "DELCONSUMER" ->
-  h_xgroup_delconsumer now d parts = (r, d') -> bmem k (marks_streams d d' (bs "XGROUP") parts r) = false ->
+  h_xgroup_delconsumer now d parts = (r, d') -> bmem k (marks_streams now d d' (bs "XGROUP") parts r) = false ->
   get_entry d' k = get_entry d k.
 Proof.
   intros Hs Hu H Hn. sub_marks Hn Hs Hu. unfold h_xgroup_delconsumer in H.
   repeat st_step; fin_all.
 Qed.
 Lemma mc_setid now d parts r d' k sub : nth_arg parts 1 = Some sub -> upper sub = bs "SETID" ->
-  h_xgroup_setid now d parts = (r, d') -> bmem k (marks_streams d d' (bs "XGROUP") parts r) = false ->
+  h_xgroup_setid now d parts = (r, d') -> bmem k (marks_streams now d d' (bs "XGROUP") parts r) = false ->
   get_entry d' k = get_entry d k.
 Proof.
   intros Hs Hu H Hn. sub_marks Hn Hs Hu. unfold h_xgroup_setid in H.
   repeat st_step; fin_all.
 Qed.
 Lemma mc_create now d parts r d' k sub : nth_arg parts 1 = Some sub -> upper sub = bs "CREATE" ->
-  h_xgroup_create now d parts = (r, d') -> bmem k (marks_streams d d' (bs "XGROUP") parts r) = false ->
+  h_xgroup_create now d parts = (r, d') -> bmem k (marks_streams now d d' (bs "XGROUP") parts r) = false ->
   get_entry d' k = get_entry d k.
 Proof.
   intros Hs Hu H Hn. sub_marks Hn Hs Hu. unfold h_xgroup_create in H.
@@ -196,7 +196,7 @@ Proof.
 Qed.
 
 Theorem marks_complete_xgroup now d parts r d' k :
-  h_xgroup now d parts = (r, d') -> bmem k (marks_streams d d' (bs "XGROUP") parts r) = false ->
+  h_xgroup now d parts = (r, d') -> bmem k (marks_streams now d d' (bs "XGROUP") parts r) = false ->
   get_entry d' k = get_entry d k.
 Proof.
   intros H Hn. unfold h_xgroup in H.
@@ -211,7 +211,12 @@ Proof.
   destruct (beq (upper sub) (bs "HELP")); inversion H; reflexivity.
 Qed.
 
-(** ---- XREADGROUP ---- *)
+(** ---- XREADGROUP (after cc8be72: marked iff the read changed the group) ---- *)
+Lemma expire_keys_only_removes now ks : forall d, only_removes d (expire_keys now ks d).
+Proof.
+  unfold expire_keys. induction ks as [|k ks IH]; intros d; cbn [fold_left]; [apply only_removes_refl|].
+  eapply only_removes_trans; [apply eng_get_only_removes | apply IH].
+Qed.
 Lemma bmem_filter_ext (f g : bytes -> bool) k l : f k = g k -> bmem k (filter f l) = bmem k (filter g l).
 Proof.
   intros H. induction l as [|x l IH]; [reflexivity|]. cbn [filter].
@@ -222,70 +227,30 @@ Qed.
 Lemma gone_keys_same_entry d X Y k : get_entry X k = get_entry Y k -> bmem k (gone_keys d X) = bmem k (gone_keys d Y).
 Proof. intros H. unfold gone_keys. apply bmem_filter_ext. rewrite !amem_get_entry, H. reflexivity. Qed.
 
-Lemma expire_keys_only_removes now ks : forall d, only_removes d (expire_keys now ks d).
+Lemma deliver_marks now gn c o k : forall reads d acc ms r d' ms',
+  xreadgroup_deliver now d gn c o reads acc ms = (r, d', ms') ->
+  bmem k ms' = false ->
+  get_entry d' k = get_entry d k /\ bmem k ms = false.
 Proof.
-  unfold expire_keys. induction ks as [|k ks IH]; intros d; cbn [fold_left]; [apply only_removes_refl|].
-  eapply only_removes_trans; [apply eng_get_only_removes | apply IH].
-Qed.
-
-Lemma reply_keys_snoc acc x : reply_keys (FArray (acc ++ [x])) =
-  reply_keys (FArray acc) ++ match x with FArray (FBulk k :: _) => [k] | _ => [] end.
-Proof. cbn [reply_keys]. rewrite flat_map_app. cbn [flat_map]. rewrite app_nil_r. reflexivity. Qed.
-
-Lemma deliver_marks now gn c o k : forall reads d acc r d',
-  Forall (fun ka => resolved now gn d (fst ka)) reads ->
-  (forall a, In (k, a) reads -> a = sid_max) ->
-  xreadgroup_deliver now d gn c o reads acc = (r, d') ->
-  bmem k (reply_keys r) = false ->
-  get_entry d' k = get_entry d k /\ bmem k (reply_keys (FArray acc)) = false.
-Proof.
-  induction reads as [|[k' a] reads IH]; intros d acc r d' Hres Hk H Hn; cbn [xreadgroup_deliver] in H.
+  induction reads as [|[k' a] reads IH]; intros d acc ms r d' ms' H Hn; cbn [xreadgroup_deliver] in H.
   - destruct acc as [|x acc]; [destruct (ro_block o)|]; inversion H; subst; split; try reflexivity; exact Hn.
-  - inversion Hres as [|? ? Hk' Hrest]; subst. cbn [fst] in Hk'. destruct Hk' as (e & s & H1 & H2 & H3 & H4).
-    unfold raw_stream in H. rewrite H1, H3 in H. destruct (alookup gn (s_groups s)) as [g|] eqn:Eg; [|contradiction].
-    assert (Hnext : forall g', Forall (fun ka => resolved now gn (put_group d k' e s gn g') (fst ka)) reads).
-    { intros g'. eapply Forall_impl; [|exact Hrest]. intros ka Hka. apply resolved_put_group; assumption. }
-    assert (Hk2 : forall a0, In (k, a0) reads -> a0 = sid_max) by (intros a0 Hin; apply Hk; right; exact Hin).
-    assert (Hput : forall g', beq k k' = false -> get_entry (put_group d k' e s gn g') k = get_entry d k).
-    { intros g' Hne. unfold put_group, put_stream. apply get_entry_put_other. exact Hne. }
+  - destruct (raw_stream d k') as [e s| |]; try (apply (IH _ _ _ _ _ _ H Hn)).
+    destruct (alookup gn (s_groups s)) as [g|]; [|inversion H; subst; split; [reflexivity | exact Hn]].
     destruct (st_read_group now s g c a (ro_count o) (ro_noack o)) as [es g'].
-    destruct es as [|e0 es].
-    + destruct (sid_eqb a sid_max) eqn:Ea.
-      * apply (IH _ _ _ _ Hrest Hk2 H Hn).
-      * destruct (IH _ _ _ _ (Hnext g') Hk2 H Hn) as [I1 I2]. split; [|exact I2]. rewrite I1. apply Hput.
-        destruct (beq k k') eqn:Eb; [|reflexivity]. apply beq_eq in Eb. subst k'.
-        rewrite (Hk a (or_introl eq_refl)), sid_eqb_refl in Ea. discriminate.
-    + destruct (IH _ _ _ _ (Hnext g') Hk2 H Hn) as [I1 I2]. rewrite reply_keys_snoc in I2.
-      apply bmem_app_false in I2 as [I2 I3]. apply bmem_cons_false in I3 as [I3 _].
-      split; [|exact I2]. rewrite I1. apply Hput. exact I3.
+    destruct (st_read_changed now s g c a (ro_count o) (ro_noack o)).
+    + destruct (IH _ _ _ _ _ _ H Hn) as [I1 I2]. apply bmem_app_false in I2 as [I2 I3]. apply bmem_cons_false in I3 as [I3 _].
+      split; [|exact I2]. rewrite I1. unfold put_group, put_stream. apply get_entry_put_other. exact I3.
+    + apply (IH _ _ _ _ _ _ H Hn).
 Qed.
 
-(** the reads an XREADGROUP resolves: (key, ID) with [sid_max] standing for ">" *)
-Definition xreadgroup_plan (now : Z) (d : db) (parts : list frame) : list (bytes * sid) :=
-  match nth_arg parts 2 with
-  | Some gn =>
-      match scan_ropts (length parts) true (skipn 4 parts) {| ro_count := None; ro_block := None; ro_noack := false |} with
-      | ScanOk o rest =>
-          let n := Z.to_nat (len rest / 2) in
-          match xreadgroup_resolve now d gn (firstn n rest) (skipn n rest) [] with
-          | (inr reads, _) => reads
-          | _ => []
-          end
-      | ScanErr => []
-      end
-  | None => []
-  end.
-
-(** XREADGROUP marks every stream it reports entries from; an unmarked key that is not read
-    with an explicit ID has exactly the entry it had.  (A read with an explicit ID that
-    reports nothing still registers the reader: finding group-reread-unmarked.) *)
+(** XREADGROUP marks every key whose read changed the group: an unmarked key has exactly the
+    entry it had - history reads included *)
 Theorem marks_complete_xreadgroup now d parts r d' k :
   h_xreadgroup now d parts = (r, d') ->
-  (forall a, In (k, a) (xreadgroup_plan now d parts) -> a = sid_max) ->
-  bmem k (marks_streams d d' (bs "XREADGROUP") parts r) = false ->
+  bmem k (marks_streams now d d' (bs "XREADGROUP") parts r) = false ->
   get_entry d' k = get_entry d k.
 Proof.
-  intros H Hplan Hn. split_group_marks Hn. unfold h_xreadgroup in H. unfold xreadgroup_plan in Hplan.
+  intros H Hn. split_group_marks Hn. unfold h_xreadgroup in H. unfold h_xreadgroup_full in *.
   destruct (nparts parts <? 6); [inversion H; reflexivity|].
   destruct (negb (is_kw (nth_error parts 1) "GROUP")); [inversion H; reflexivity|].
   destruct (nth_arg parts 2) as [gn|]; [|inversion H; reflexivity].
@@ -297,8 +262,10 @@ Proof.
     as [[err|reads] d1] eqn:E.
   - inversion H; subst. destruct (resolve_facts now gn _ _ _ _ _ _ (Forall_nil _) E) as [[ks ->] _].
     apply removed_complete; [apply expire_keys_only_removes | exact Hgone].
-  - destruct (resolve_facts now gn _ _ _ _ _ _ (Forall_nil _) E) as [[ks Hks] Hr]. specialize (Hr reads eq_refl).
-    destruct (deliver_marks now gn c o k reads d1 [] r d' Hr Hplan H Hn) as [Hsame _].
+  - destruct (resolve_facts now gn _ _ _ _ _ _ (Forall_nil _) E) as [[ks Hks] _].
+    destruct (xreadgroup_deliver now d1 gn c o reads [] []) as [[r0 d0] ms0] eqn:Ed. cbn [fst snd] in *.
+    inversion H; subst r0 d0.
+    destruct (deliver_marks now gn c o k reads d1 [] [] r d' ms0 Ed Hn) as [Hsame _].
     rewrite Hsame. apply removed_complete; [subst d1; apply expire_keys_only_removes|].
     rewrite gone_is_removed in *. rewrite <- Hgone. symmetry. apply (gone_keys_same_entry d d' d1 k Hsame).
 Qed.
@@ -307,13 +274,11 @@ Qed.
 Theorem marks_complete_groups now d name parts r d' k :
   (name = bs "XGROUP" /\ h_xgroup now d parts = (r, d')) \/ (name = bs "XACK" /\ h_xack now d parts = (r, d')) \/
   (name = bs "XCLAIM" /\ h_xclaim now d parts = (r, d')) \/ (name = bs "XPENDING" /\ h_xpending now d parts = (r, d')) \/
-  (name = bs "XINFO" /\ h_xinfo now d parts = (r, d')) \/
-  (name = bs "XREADGROUP" /\ h_xreadgroup now d parts = (r, d') /\
-   forall a, In (k, a) (xreadgroup_plan now d parts) -> a = sid_max) ->
-  bmem k (marks_streams d d' name parts r) = false ->
+  (name = bs "XINFO" /\ h_xinfo now d parts = (r, d')) \/ (name = bs "XREADGROUP" /\ h_xreadgroup now d parts = (r, d')) ->
+  bmem k (marks_streams now d d' name parts r) = false ->
   get_entry d' k = get_entry d k.
 Proof.
-  intros [[-> H]|[[-> H]|[[-> H]|[[-> H]|[[-> H]|[-> [H Hp]]]]]]] Hn.
+  intros [[-> H]|[[-> H]|[[-> H]|[[-> H]|[[-> H]|[-> H]]]]]] Hn.
   - eapply marks_complete_xgroup; eassumption.
   - eapply marks_complete_xack; eassumption.
   - eapply marks_complete_xclaim; eassumption.
